@@ -30,7 +30,8 @@ def builtin_len(x):
 
 def builtin_isnan(x):
     import numpy as np
-    return np.isnan(x)
+    # True if and only if there are any NaNs in x (a single flag, also for arrays)
+    return np.isnan(x).any()
 
 
 def builtin_norm_1(x):
